@@ -382,6 +382,10 @@ func (hp *HTTPProxy) pacProxy(r *http.Request) (*url.URL, error) {
 	if err != nil {
 		return nil, err
 	}
+	if p.Mode == pac.SOCKS || p.Mode == pac.SOCKS4 {
+		// http.Transport would talk plain HTTP to a proxy of a type it does not know.
+		return nil, fmt.Errorf("unsupported proxy type %s", p.Mode)
+	}
 
 	proxyURL := p.URL()
 
